@@ -137,6 +137,25 @@ func (f *Frame) doCall(instr ssa.Instruction, c *ssa.CallCommon, args []Value, r
 				continue
 			}
 			env := f.baseEnv(f.st)
+			if f.parent == nil && instr.Block() != nil {
+				// source-level locals visible at the call site
+				for nm, v := range f.localsDominating(instr.Block()) {
+					if _, isParam := f.paramNames()[nm]; isParam {
+						continue
+					}
+					if pv, ok := f.vals[v]; ok {
+						env.vars[nm] = SpecVal{T: e.valTerm(pv, v.Type()), Typ: v.Type(), V: pv}
+					}
+				}
+				for nm, v := range f.localsBefore(instr) {
+					if _, isParam := f.paramNames()[nm]; isParam {
+						continue
+					}
+					if pv, ok := f.vals[v]; ok {
+						env.vars[nm] = SpecVal{T: e.valTerm(pv, v.Type()), Typ: v.Type(), V: pv}
+					}
+				}
+			}
 			f.bindCallEnv(env, c, args)
 			t, err := env.evalBool(site.Cl.Expr)
 			oname := fmt.Sprintf("%s#site-assert:%s:%s", shortFuncName(top.fn), site.Pattern, clauseLabel(site.Cl, si))
@@ -189,6 +208,7 @@ func (f *Frame) doCall(instr ssa.Instruction, c *ssa.CallCommon, args []Value, r
 		}
 		pat = pat0
 		f.st.heaps[ghostName("called", pat, -1)] = tTrue
+		f.st.heaps[ghostName("itercalled", pat, -1)] = tTrue
 		_, rest, restVals := f.explicitArgs(c, args)
 		for i, a := range rest {
 			t := e.valTerm(a, restVals[i].Type())
@@ -220,6 +240,19 @@ func (f *Frame) doCall(instr ssa.Instruction, c *ssa.CallCommon, args []Value, r
 		}
 	}
 	return res
+}
+
+func (f *Frame) paramNames() map[string]bool {
+	m := map[string]bool{}
+	for _, p := range f.fn.Params {
+		m[p.Name()] = true
+	}
+	if c := f.e.contract; c != nil {
+		for _, n := range c.Params {
+			m[n] = true
+		}
+	}
+	return m
 }
 
 // siteCount returns the ordinal of a call site among all call sites matching pat, in order of first encoding.
@@ -522,6 +555,11 @@ func (env *SpecEnv) modTargets(m string) ([]modTarget, error) {
 	if strings.HasSuffix(m, "[*]") {
 		contents = true
 		m = strings.TrimSuffix(m, "[*]")
+	}
+	if strings.HasPrefix(m, "*") {
+		// *p : every field of the object p points to (p itself may be a field expression)
+		contents = true
+		m = strings.TrimPrefix(m, "*")
 	}
 	cl, err := parseClause(m)
 	if err != nil {
@@ -986,6 +1024,7 @@ func (f *Frame) callEffects(c *ssa.CallCommon, eff *effects, seen map[*ssa.Funct
 		}
 		if matchPattern(base, name) {
 			eff.names[ghostName("called", pat, -1)] = SBool
+			eff.names[ghostName("itercalled", pat, -1)] = SBool
 			for k, s := range e.ghostSorts {
 				if strings.HasPrefix(k, ghostName("arg", pat, 0)[:len(ghostName("arg", pat, 0))-1]) || strings.HasPrefix(k, ghostName("ret", pat, 0)[:len(ghostName("ret", pat, 0))-1]) {
 					eff.names[k] = s
